@@ -11,7 +11,7 @@ use std::rc::Rc;
 use std::sync::atomic::{AtomicUsize, Ordering};
 use std::sync::Arc;
 
-struct Src { data: Vec<u8>, pos: usize, fail_at: Option<usize>, endless: bool, pulled: Arc<AtomicUsize>, limit: usize }
+struct Src { data: Vec<u8>, pos: usize, fail_at: Option<usize>, endless: bool, pulled: Arc<AtomicUsize>, limit: usize, chunk: usize }
 impl Read for Src {
     fn read(&mut self, buf: &mut [u8]) -> std::io::Result<usize> {
         let n = self.pulled.load(Ordering::SeqCst);
@@ -20,7 +20,10 @@ impl Read for Src {
         if self.pos >= self.data.len() {
             if self.endless && !self.data.is_empty() && n < self.limit { self.pos = 0; } else { return Ok(0); }
         }
-        buf[0] = self.data[self.pos]; self.pos += 1; self.pulled.fetch_add(1, Ordering::SeqCst); Ok(1)
+        // READ_CHUNK=n: up to n bytes per read call (default 1), never across the wrap-around of an endless stream or a failure offset
+        let mut n = self.chunk.min(buf.len()).min(self.data.len() - self.pos).max(1);
+        if let Some(f) = self.fail_at { if f > self.pulled.load(Ordering::SeqCst) { n = n.min(f - self.pulled.load(Ordering::SeqCst)); } }
+        buf[..n].copy_from_slice(&self.data[self.pos..self.pos + n]); self.pos += n; self.pulled.fetch_add(n, Ordering::SeqCst); Ok(n)
     }
 }
 struct Sink { data: Vec<u8>, fail_at: Option<usize>, kind: std::io::ErrorKind, chunk: Option<usize> }
@@ -51,7 +54,7 @@ fn main() {
     let pulled = Arc::new(AtomicUsize::new(0)); let p2 = pulled.clone();
     let fail_at = envn("FAIL_READ_AT"); let endless = std::env::var("ENDLESS").is_ok(); let limit = envn("ENDLESS_LIMIT").unwrap_or(1_000_000);
     let r = std::panic::catch_unwind(std::panic::AssertUnwindSafe(|| {
-        jawk::go(cli, out.clone(), err.clone(), Box::new(move || Src { data: input.clone(), pos: 0, fail_at, endless, pulled: p2.clone(), limit }))
+        jawk::go(cli, out.clone(), err.clone(), Box::new(move || Src { data: input.clone(), pos: 0, fail_at, endless, pulled: p2.clone(), limit, chunk: envn("READ_CHUNK").unwrap_or(1) }))
     }));
     match r {
         Ok(Ok(())) => println!("result=ok"),
